@@ -167,6 +167,7 @@ def verify(rep, prop, fn, spec, timeout=60000, B=2, backend='z3-qf(typed-instant
                 # the counter-model lives in the vocabulary of the VC (heap snapshots, ghost functions, value-quantified hypotheses are only expanded
                 # over a small domain): without a natively failing input it is not reported as a refutation
                 o.status = core.UNKNOWN; o.detail = f'not proved; bounded-scope model of the VC {mv}; no natively failing input found'
+        core.native_search_for_undischarged(o, fallback, counts, ob.label)
         out.append(o); rep.add(o)
     core.oracle_selfcheck(rep, fn, fallback, all(o.status == core.PROVED for o in out))
     return out
